@@ -1,10 +1,35 @@
-(* C01 — Binary encoding round-trips every valid value exactly.  Statements only. *)
+(* C01 — Binary encoding round-trips every valid value exactly.  Statements only.
+
+   codec_ok c says, for every well-formed value a of the codec c (wf: integer ranges, valid UTF-8,
+   lengths below 2^31, array elements of the declared type, dimensions multiplying to the length,
+   picoseconds only with their timestamp):
+     blen c a = number of bytes enc c a writes, every one of them a byte, and for all options o with
+     client_offset 0, every remaining depth d and every continuation rest,
+       run (dec c o d) (enc c a ++ rest) = Ok (norm c a, rest)     if chk c o d a = None
+                                        = Err e                   if chk c o d a = Some e
+   where chk is the first length-limit or depth violation in decoding order (None exactly when every
+   string / byte string / array length is within its limit and the nesting within the depth,
+   theorem C01_within_limits) and norm is the documented normalisation (DateTime clamped to
+   1601..9999, null/empty LocalizedText parts, dimensions of empty arrays). *)
 From Coq Require Import List ZArith.
-From OV Require Import C01.Codec C01.CodecProofs C01.Builtins C01.Types C01.Model.
+Import ListNotations.
+From OV Require Import C01.Codec C01.CodecProofs C01.Builtins C01.VariantProofs C01.Types C01.TypesProofs
+  C01.Model C01.Proofs.
 Open Scope Z_scope.
 
-(* The codec law (length, bytes, round trip within the limits, rejection beyond them) is preserved
-   by products, arrays, field lists, changes of representation and tagged sums. *)
+(* every built-in type (k = encoding mask 1..22, 25), Variant and DataValue *)
+Theorem C01_builtins :
+  (forall k, codec_ok (scalar_codec k)) /\ codec_ok variant_codec /\ codec_ok dv_codec.
+Proof. split; [exact scalar_codec_ok|split; [exact variant_codec_ok|exact dv_codec_ok]]. Qed.
+Print Assumptions C01_builtins.
+
+(* every type built from them: arrays, field lists (generated structures), enumerations, flag sets,
+   nested arbitrarily *)
+Theorem C01_types : forall t, codec_ok (ty_codec t).
+Proof. exact ty_codec_ok. Qed.
+Print Assumptions C01_types.
+
+(* the codec law is preserved by the generic combinators *)
 Theorem C01_combinators :
   (forall A B (ca : codec A) (cb : codec B), codec_ok ca -> codec_ok cb -> codec_ok (c_pair ca cb)) /\
   (forall A esize (c : codec A), codec_ok c -> codec_ok (c_array esize c)) /\
@@ -20,3 +45,32 @@ Proof.
   - apply c_sum_ok; assumption.
 Qed.
 Print Assumptions C01_combinators.
+
+(* "no violation met while decoding" is exactly "every length within its limit and the nesting within
+   the depth", a specification that does not mention decoding order *)
+Theorem C01_within_limits : forall o d t v, lim_ok o ->
+  (chk_ty t o d v = None <-> fits_ty t o d v = true).
+Proof. intros o d t v Hl. rewrite <- (fits_chk_ty o d Hl t v). symmetry. apply is_none_true. Qed.
+Print Assumptions C01_within_limits.
+
+(* the round trip in one statement: a well-formed value within the limits, embedded in front of any
+   bytes, decodes to its normal form and leaves exactly those bytes; byte_len is the bytes written *)
+Theorem C01_roundtrip : forall t v o rest, wf_ty t v -> plain o -> fits_ty t o (depth0 o) v = true ->
+  len_ty t v = zlen (enc_ty t v) /\
+  Codec.run (dec_ty t o (depth0 o)) (enc_ty t v ++ rest) = Ok (norm_ty t v, rest).
+Proof. exact roundtrip. Qed.
+Print Assumptions C01_roundtrip.
+
+Theorem C01_oracle : forall c, valid c -> known c = 0 -> oracle c (Model.run c) = true.
+Proof. exact oracle_holds. Qed.
+Print Assumptions C01_oracle.
+
+(* before "fix: empty variant arrays with dimensions ...": the empty Int32 array with dimensions
+   Some [] was written as 9 bytes of which its own decoder consumes 5 *)
+Theorem C01_legacy_refuted :
+  let o := mk_opts 65535 65535 1000 327675 10 0 in
+  let v := VArray 6 [] (Some []) in
+  wf_variant v /\ length (Legacy.enc_variant v) = 9%nat /\
+  exists v' rest', Codec.run (dec_variant o 10) (Legacy.enc_variant v) = Ok (v', rest') /\ length rest' = 4%nat.
+Proof. exact legacy_refuted. Qed.
+Print Assumptions C01_legacy_refuted.
